@@ -109,4 +109,15 @@ example : (oauthCallback id exPol 0 { exCb with sameString := true }).1 = .error
 coalesced with any other callback's, so the session a callback sets is the one *its own* code was redeemed for. -/
 theorem C06_redeem_not_coalesced : Sso.Generated.skel_proxy_sf_Redeem = ["call:Redeem", "return"] := by decide
 
+/-- Tie (T1): flow start and callback on the proxy — call/branch/store skeletons regenerated from the source on every run; the expectations below are
+what the model in this file transliterates. A structural edit of any of these functions breaks this theorem and sends the
+check searching for a failing input. -/
+theorem C06_wiring :
+    Sso.Generated.skel_proxy_OAuthStart =
+      ["call:NewLogEntry", "call:getRemoteAddr", "call:isXHR", "if{", "call:WithRemoteAddress", "call:Error", "call:New", "call:XHRError", "return", "}", "call:String", "call:GetRedirectURL", "call:GenerateKey", "call:Sprintf", "call:Marshal", "if{", "call:append", "call:Incr", "call:Error", "call:Error", "call:ErrorPage", "return", "}", "call:SetCSRF", "call:Marshal", "if{", "call:append", "call:Incr", "call:Error", "call:Error", "call:ErrorPage", "return", "}", "call:GetSignInURL", "call:WithSignInURL", "call:Info", "call:String", "call:Redirect"] ∧
+    Sso.Generated.skel_proxy_OAuthCallback =
+      ["call:NewLogEntry", "call:getRemoteAddr", "call:ParseForm", "if{", "call:Incr", "call:Error", "call:ErrorPage", "return", "}", "call:Get", "if{", "call:append", "call:Incr", "call:ErrorPage", "return", "}", "call:Get", "call:redeemCode", "if{", "call:append", "call:Incr", "call:WithRemoteAddress", "call:Error", "call:ErrorPage", "return", "}", "call:Get", "call:Unmarshal", "if{", "call:append", "call:Incr", "call:WithRemoteAddress", "call:Error", "call:ErrorPage", "return", "}", "call:GetCSRF", "if{", "call:append", "call:Incr", "call:Error", "call:ErrorPage", "return", "}", "call:Unmarshal", "if{", "call:append", "call:Incr", "call:WithRemoteAddress", "call:Error", "call:ErrorPage", "return", "}", "if{", "call:append", "call:Incr", "call:WithRemoteAddress", "call:Info", "call:ErrorPage", "return", "}", "call:DeepEqual", "if{", "call:append", "call:Incr", "call:WithRemoteAddress", "call:Info", "call:ErrorPage", "return", "}", "call:RunValidators", "call:len", "call:len", "if{", "call:append", "call:Incr", "call:Sprintf", "call:WithRemoteAddress", "call:WithUser", "call:Info", "call:len", "call:make", "range{", "call:Error", "call:append", "}", "call:Join", "call:Sprintf", "call:ErrorPage", "return", "}", "call:Sprintf", "call:WithRemoteAddress", "call:WithUser", "call:WithInGroups", "call:Info", "store:session.AuthorizedUpstream", "call:SaveSession", "if{", "call:append", "call:Incr", "call:WithRemoteAddress", "call:Error", "call:ErrorPage", "return", "}", "call:ClearCSRF", "call:Redirect"] ∧
+    Sso.Generated.skel_proxy_redeemCode =
+      ["if{", "call:New", "return", "}", "call:GetRedirectURL", "call:String", "call:Redeem", "if{", "return", "}", "if{", "call:New", "return", "}", "return"] := by decide
+
 end Sso.Proxy
